@@ -283,7 +283,8 @@ CHECKS["C05"] = {
     "jobs": [{"bin": "e2_prog", "args": ["--family", "num"], "deadline": {"quick": 420, "thorough": 900}},
              {"bin": "e2_prog", "args": ["--family", "num", "--alpha", "2", "--maxn", "2", "--second", "1"], "deadline": {"quick": 300, "thorough": 900}},
              {"bin": "c09_inter", "deadline": {"quick": 300, "thorough": 900}},
-             {"bin": "e3_hist", "args": ["--mode", "pairs"], "deadline": {"quick": 300, "thorough": 900}}],
+             {"bin": "e3_hist", "args": ["--mode", "pairs"], "deadline": {"quick": 300, "thorough": 900}},
+             {"bin": "c13_domain", "deadline": {"quick": 100, "thorough": 300}}],
     "rule": ("the C01 program space restricted to programs with a cycle, every domain / fixpoint parameter tuple: the forward analysis must finish "
              "within 20000 fixpoint iterations (ascending + descending, counted by the tick hook placed in the wto cycle loops, the kill/gen "
              "iterator, the forward-backward refinement loop and the inter-procedural recursion). max.max_fixpoint_ticks reports the maximum observed. "
@@ -291,7 +292,8 @@ CHECKS["C05"] = {
              "fixpoints) under a budget of 3000 iterations (the maximum observed on the unchanged tree is below 100). "
              "Job 4 (widening chains): per domain/config, for ALL ordered pairs (A,B) of the C04 pool of reachable values: acc:=A; repeat { nw:=acc|B; "
              "stop if nw<=acc; acc:=acc||nw } with the plain widening and with widening_thresholds must stop within 40 steps by the domain's own "
-             "inclusion test (the engine's ascending loop for a body that always yields B)."),
+             "inclusion test (the engine's ascending loop for a body that always yields B). Job 5: the same chains (100 steps) for the "
+             "wrapped-interval domain over the values reached by its core machine-mode histories of depth <=2."),
     "assumptions": ["budget 20000 is >50x the maximum observed on the unchanged tree; a violation is replayable because the budget is an iteration count, not wall-clock time"],
     "level_text": "Complete enumeration of the stated program space; non-termination is a deterministic, replayable verdict.",
     "level_note": "Widening/narrowing soundness clauses (result contains the arguments) are checked at operator level by C03/C04/C08.",
